@@ -214,7 +214,7 @@ static void run_one(void) {
   if (r == 1) return;                 /* pruned (counted) */
   S->execs++;
   if (S->len > S->max_depth) S->max_depth = S->len;
-  if (wf && me == 0 && S->execs <= 3) { fprintf(wf, "SAMPLE\n"); write_path(wf); fprintf(wf, "END\n"); fflush(wf); }
+  if (wf && ((me == 0 && S->execs <= 2) || ((me == 5 || me == 10 || me == 15) && S->execs == 1))) {   /* samples from different sub-trees */ fprintf(wf, "SAMPLE\n"); write_path(wf); fprintf(wf, "END\n"); fflush(wf); }
 }
 
 static void worker(void) {
@@ -436,7 +436,7 @@ int vx_main(int argc, char **argv, const char *prop, vx_body_fn body) {
     for (int k = 0; k < s->nkeys; k++) { struct viol *v = get_viol(s->keys[k].key); if (v) v->count += s->keys[k].count; }
   }
   /* first paths per key from the record files; samples */
-  char samples[3][4000]; int nsamp = 0;
+  char samples[5][4000]; int nsamp = 0;
   for (int w = 0; w < W; w++) {
     char fn[600]; snprintf(fn, sizeof fn, "%s.w%d.rec", base, w);
     FILE *f = fopen(fn, "r"); if (!f) continue;
@@ -455,7 +455,7 @@ int vx_main(int argc, char **argv, const char *prop, vx_body_fn body) {
         }
       } else if (!strcmp(line, "END")) {
         if (mode == 1) { struct viol *v = get_viol(tmp.key); if (v && path_less(tmp.plen, tmp.pc, v->plen, v->pc)) { long c = v->count; *v = tmp; v->count = c; } }
-        if (mode == 2 && nsamp < 3) { snprintf(samples[nsamp++], sizeof samples[0], "%s", sbuf); }
+        if (mode == 2 && nsamp < 5) { snprintf(samples[nsamp++], sizeof samples[0], "%s", sbuf); }
         mode = 0;
       }
     }
